@@ -854,3 +854,32 @@ def main(tier):
     from checks import c17_tls
     c17_tls.run(ctx, tier)
     return ctx.finish()
+
+
+def replay(path):
+    """re-execute a replay file; the TLS section owns the witnesses of the TLS message codecs"""
+    import json
+    d = json.load(open(path))
+    if d.get("kind") != "impl-witness":
+        print("the replay names a broken obligation / correspondence, nothing to execute:", json.dumps(d.get("broken", []))[:600])
+        return 1
+    from checks import c17_tls
+    if c17_tls.owns(d):
+        tree.activate()
+        problems = c17_tls.replay_witness(d)
+        for p in problems:
+            print("still failing:", p[:400])
+        if not problems:
+            print("no longer failing")
+        return 1 if problems else 0
+    rep = d.get("replay", {})
+    if "ops" in rep:
+        tree.activate()
+        from harness.impl_codec import CodecImpl
+        impl = CodecImpl()
+        out = [impl.step(l) for l in rep["ops"]]
+        same = out == rep.get("impl_output")
+        print("implementation output " + ("unchanged (still failing)" if same else "changed: " + json.dumps(out)[:400]))
+        return 1 if same else 0
+    print("nothing re-executable in", path)
+    return 2
